@@ -92,6 +92,8 @@ struct QueueAdapter : Adapter {
     }
     return "?";
   }
+  std::function<bool(const Case&, const OpSpec&)> lf;
+  bool lock_free(const Case& c, const OpSpec& op) override { return lf ? lf(c, op) : true; }
   void teardown(std::vector<std::string>& out) override {
     std::vector<long> got; { xv::Quiet qq; got.reserve(4096); }
     if (drain) {
